@@ -3,6 +3,7 @@
 //! ops `addrewrite` / `covdir` / `rewrite`) and the property oracles.
 #[path = "../../c11/src/pathgen.rs"]
 mod pathgen;
+mod java;
 use corrlib::*;
 use grcov::CovResult;
 use pathgen::*;
@@ -14,6 +15,17 @@ use std::sync::Mutex;
 const FINDING: &str = "C12-respelled-duplicates";
 /// two distinct clean keys, one below the prefix dir and one not, collapse to one reported path
 const PREFIX_FINDING: &str = "C12-prefix-collapses-distinct-keys";
+/// two DIFFERENT files under one reported path: a relative key that resolves to a file OUTSIDE the
+/// source dir S (through `guess_abs_path`'s "S ends with an ancestor of the key" heuristic: S = …/T,
+/// key `T/../x`; or through a symbolic link followed by `..`) cannot be made relative to S, so
+/// `fixup_rel_path` keeps the key's own normal form `x` as the reported path — which is also the
+/// reported path of S/x
+const ALIAS_FINDING: &str = "C12-outside-source-dir-keeps-own-name";
+
+/// the entry a record's data comes from: every generated entry carries one count-0 line 20+i
+fn entry_marks(c: &CovResult) -> BTreeSet<u32> {
+    c.lines.keys().filter(|&&l| (20..1000).contains(&l)).cloned().collect()
+}
 
 /// `C12.lexName`, restated with std::path: backslashes to '/', `strip_prefix(prefix_dir)` when the
 /// key starts with it, lexical normal form; None = the path escapes through ".."
@@ -190,19 +202,28 @@ fn run_impl_c12(case: &C12Case) -> Result<Recs, String> {
 }
 
 /// paths reported more than once, and whether the records sharing one denote one file: their
-/// absolute paths agree once relative ones are taken from the cwd and "."/".." are resolved
+/// absolute paths agree once relative ones are taken from the cwd and canonicalised (through
+/// whatever links; "."/".." resolved lexically when the path does not exist)
 fn duplicates(recs: &Recs, cwd: &str) -> Vec<(String, bool)> {
     let mut by_rel: BTreeMap<&str, BTreeSet<Option<String>>> = BTreeMap::new();
     let mut n: BTreeMap<&str, usize> = BTreeMap::new();
     for (a, r, _) in recs {
-        let full = if a.starts_with('/') { a.clone() } else { format!("{}/{}", cwd, a) };
-        by_rel.entry(r).or_default().insert(spec_normalize(&full));
+        by_rel.entry(r).or_default().insert(file_id(a, cwd));
         *n.entry(r).or_insert(0) += 1;
     }
     n.iter()
         .filter(|(_, c)| **c > 1)
         .map(|(r, _)| (r.to_string(), by_rel[r].len() == 1))
         .collect()
+}
+
+/// the physical file an absolute path of a record denotes
+fn file_id(a: &str, cwd: &str) -> Option<String> {
+    let full = if a.starts_with('/') { a.to_string() } else { format!("{}/{}", cwd, a) };
+    match std::fs::canonicalize(&full) {
+        Ok(p) => p.to_str().map(|s| s.to_string()),
+        Err(_) => spec_normalize(&full),
+    }
 }
 
 fn is_normal_key(k: &str) -> bool {
@@ -317,11 +338,34 @@ fn oracles(rep: &mut Report, t: &Tree, case: &C12Case, r: &Result<Recs, String>,
         ks.iter().map(|k| spec_normalize(&k.replace('\\', "/"))).collect()
     };
     let mut aliases = 0;
+    // per file: the key `add_results` files an input under — the canonical path of
+    // `source_dir.join(key)` when that exists (whatever the OTHER keys of the batch do)
+    let flat = case.flat();
+    let canon_of = |k: &str| -> Option<String> {
+        case.cfg.sd.as_ref().and_then(|sd| std::fs::canonicalize(Path::new(sd).join(k)).ok()).and_then(|p| p.to_str().map(|s| s.to_string()))
+    };
+    let marked = !flat.is_empty() && flat.iter().all(|(_, c)| entry_marks(c).len() == 1);
+    if marked {
+        // every key that canonicalises must share ONE record with every other key of the same file
+        let mut by_canon: BTreeMap<String, BTreeSet<u32>> = BTreeMap::new();
+        for (k, c) in &flat {
+            if let Some(p) = canon_of(k) {
+                by_canon.entry(p).or_default().extend(entry_marks(c));
+            }
+        }
+        for (p, marks) in &by_canon {
+            let holding = recs.iter().filter(|(_, _, c)| !entry_marks(c).is_disjoint(marks)).count();
+            if counting && marks.len() >= 2 {
+                rep.count("perfile.canonicalising_keys_of_one_file");
+            }
+            if holding > 1 {
+                fails.push((format!("C12_canonicalising_keys_share_one_entry fails: the inputs whose key canonicalises to {:?} are spread over {} records", p, holding), None));
+            }
+        }
+    }
+    let mut dup_names: Vec<Option<&'static str>> = vec![];
     for (rel, same_abs) in &dups {
-        // matcher of C12-respelled-duplicates: the records sharing the path denote one file (equal
-        // absolute paths), or the path is the lexical normal form of two or more distinct raw keys
         let respelled = lexical.iter().filter(|k| k.as_deref() == Some(rel.as_str())).count() >= 2;
-        let same_abs = &(*same_abs || respelled);
         // matcher of C12-prefix-collapses-distinct-keys: no source dir, no mapping, a prefix dir;
         // two raw keys with DIFFERENT lexical normal forms (not respellings of each other) have
         // this path as their name once the prefix is removed
@@ -334,25 +378,49 @@ fn oracles(rep: &mut Report, t: &Tree, case: &C12Case, r: &Result<Recs, String>,
             }
             forms.len() >= 2
         };
+        // matcher of C12-respelled-duplicates, per file: the records sharing the path denote ONE
+        // file (equal absolute paths) and at most one of them stems from keys that canonicalise
+        // under the source dir — the others come from spellings `add_results` cannot canonicalise
+        // (backslash, prefixed, mapped, source-dir tail, `zz/../`, trailing '/', a missing file; or
+        // there is no source dir at all and nothing is canonicalised)
+        let sharing: Vec<&(String, String, CovResult)> = recs.iter().filter(|(_, r, _)| r == rel).collect();
+        let name: Option<&'static str>;
         if g.is_some() {
             fails.push((format!("C12_unique_partial fails: {:?} reported more than once although the guard holds", rel), None));
+            name = None;
         } else if prefix_collapse {
             fails.push((format!("{:?} is reported more than once (distinct keys that differ by the prefix dir)", rel), Some(PREFIX_FINDING)));
+            name = Some(PREFIX_FINDING);
         } else if *same_abs {
-            fails.push((format!("{:?} is reported more than once (one file, different raw keys)", rel), Some(FINDING)));
+            // (that keys with ONE canonical path sit in one record is checked above, per file,
+            // and fails unnamed: what is left here are spellings add_results does not unify)
+            if counting {
+                let canon_marks: BTreeSet<u32> = flat.iter().filter(|(k, _)| canon_of(k).is_some()).flat_map(|(_, c)| entry_marks(c)).collect();
+                let from_canonical = sharing.iter().filter(|(_, _, c)| !entry_marks(c).is_disjoint(&canon_marks)).count();
+                rep.count(if case.cfg.sd.is_none() { "dup.one_file.no_source_dir" } else if from_canonical == 0 { "dup.one_file.no_key_canonicalises" }
+                    else if from_canonical == 1 { "dup.one_file.one_canonical_record_plus_other_spellings" } else { "dup.one_file.keys_canonicalise_to_different_paths(prefix/mapping)" });
+            }
+            fails.push((format!("{:?} is reported more than once (one file; spellings that add_results does not canonicalise to one key)", rel), Some(FINDING)));
+            name = Some(FINDING);
         } else if case.cfg.sd.as_ref().map_or(false, |sd| {
-            recs.iter().any(|(a, r, _)| r == rel && !r.starts_with('/') && *a != format!("{}/{}", sd, r))
+            // matcher of C12-outside-source-dir-keeps-own-name: a source dir; the records denote
+            // different files; one of them has a RELATIVE reported path although its file is not
+            // below the source dir (fixup_rel_path's fallback: the key's own normal form is kept)
+            let csd = std::fs::canonicalize(sd).ok().and_then(|p| p.to_str().map(|s| s.to_string())).unwrap_or(sd.clone());
+            sharing.iter().any(|(a, r, _)| !r.starts_with('/') && file_id(a, &t.cw).map_or(true, |f| !f.starts_with(&format!("{}/", csd))))
         }) {
-            // Not this property: two *different* files (different absolute paths, raw keys that are
-            // not respellings of each other) share one reported path, because one of them is a
-            // relative key that `guess_abs_path` resolved to a file outside the source dir
-            // (`<source-dir tail>/../x`) and that keeps its own normal form as relative path.
-            // Each file still appears once; counted and noted, see the harness notes.
             aliases += 1;
+            fails.push((format!("{:?} is reported for two different files (one lies outside the source dir and keeps the key's own name as its relative path)", rel), Some(ALIAS_FINDING)));
+            name = Some(ALIAS_FINDING);
         } else {
             fails.push((format!("{:?} is reported more than once with different absolute paths", rel), None));
+            name = None;
         }
+        dup_names.push(name);
     }
+    // the finding a consequence of the duplicates (covdir totals) belongs to: unnamed as soon as one
+    // duplicate is unnamed
+    let dup_finding: Option<&'static str> = if dup_names.iter().any(|n| n.is_none()) { None } else { dup_names.first().cloned().flatten() };
     // the sharp criterion (C12_unique_iff_unfiltered): no source dir, no mapping, filters off —
     // the report has a duplicate path iff two distinct raw keys share a lexical name
     {
@@ -429,11 +497,8 @@ fn oracles(rep: &mut Report, t: &Tree, case: &C12Case, r: &Result<Recs, String>,
                     rep.count_n("out.covdir_total_mismatch", bad.len() as u64);
                 }
                 for b in bad {
-                    if aliases > 0 {
-                        break; // two different files under one name: covdir cannot list both
-                    }
                     fails.push((format!("covdir counts a file more than once: {}", b),
-                        if (!dups.is_empty() && g.is_none()) || abs_dups > 0 { Some(FINDING) } else { None }));
+                        if !dups.is_empty() { dup_finding } else if abs_dups > 0 { Some(FINDING) } else { None }));
                 }
             }
             Err(p) => fails.push((format!("output_covdir failed: {}", p), None)),
@@ -733,6 +798,59 @@ fn witness_links(rep: &mut Report) {
     std::env::set_current_dir("/verif").unwrap();
 }
 
+/// Props.C12.C12_existing_backslash_witness / _prefix_witness / _mapping_witness (second review, item
+/// 6: an EXISTING file below --source-dir is still listed twice) and C12_outside_source_dir_witness
+/// (two different files, one reported path) on the real code
+fn witness_review6(rep: &mut Report) {
+    let base = rep.workdir.join("fs");
+    let s = |x: &[&str]| -> Vec<String> { x.iter().map(|y| y.to_string()).collect() };
+    let mut t = materialise(&base, 905, &s(&["src", "other", "cw", "src/src"]), &s(&["src/src/a.c"]));
+    t.cw = t.src.clone();
+    // `x.c` directly below the tree root, i.e. NEXT TO the source dir `<root>/src` (which has no
+    // sub-directory `src`: `<root>/src/src/../x.c` does not resolve)
+    let mut t2 = materialise(&base, 906, &s(&["src", "other", "cw"]), &s(&["src/x.c", "x.c"]));
+    t2.cw = t2.src.clone();
+    let two = |k1: &str, k2: &str| -> Vec<(String, CovResult)> {
+        [k1, k2].iter().enumerate().map(|(i, k)| {
+            let mut c = CovResult::default();
+            c.lines.insert(1, i as u64 + 1);
+            (k.to_string(), c)
+        }).collect()
+    };
+    let plain = Cfg { sd: Some(t.src.clone()), pd: None, mapping: None, ignore: vec![], keep: vec![], ine: false, filter: None };
+    let plain2 = Cfg { sd: Some(t2.src.clone()), ..plain.clone() };
+    let abs = format!("{}/src/a.c", t.src);
+    let twice = |a1: &str, a2: &str, rel: &str| -> String {
+        let mut v = vec![format!("A{}:R{}=L1:1;B;F", hex(a1.as_bytes()), hex(rel.as_bytes())), format!("A{}:R{}=L1:2;B;F", hex(a2.as_bytes()), hex(rel.as_bytes()))];
+        v.sort();
+        format!("ok {}", v.join(" "))
+    };
+    let cases: Vec<(&str, Cfg, Vec<(String, CovResult)>, String)> = vec![
+        ("existing_backslash", plain.clone(), two("src\\a.c", "src/a.c"), twice(&abs, &abs, "src/a.c")),
+        ("existing_prefix", Cfg { pd: Some("/builds/w".into()), ..plain.clone() }, two("/builds/w/src/a.c", "src/a.c"), twice(&abs, &abs, "src/a.c")),
+        ("existing_mapping", Cfg { mapping: Some(vec![("obj/a.c".into(), "src/a.c".into())]), ..plain.clone() }, two("obj/a.c", "src/a.c"), twice(&abs, &abs, "src/a.c")),
+        ("outside_source_dir", plain2, two("src/../x.c", "x.c"), twice(&format!("{}/x.c", t2.root), &format!("{}/x.c", t2.src), "x.c")),
+    ];
+    for (name, cfg, batch, want) in cases {
+        let t = if name == "outside_source_dir" { t2.clone() } else { t.clone() };
+        std::env::set_current_dir(&t.cw).unwrap();
+        let case = C12Case { cfg, batches: vec![batch] };
+        let r = run_impl_c12(&case);
+        let req = request("addrewrite", &t, &case.cfg, &case.flat());
+        let model = run_model_named("gm_c12", &[req.clone()], &rep.workdir, "witness6");
+        rep.case(&req, true);
+        rep.count(&format!("witness.{}", name));
+        if model[0] != want {
+            rep.fail("disagreement", None, format!("the driver does not reproduce the Lean witness {}: {}", name, model[0]), case.to_json(&t));
+        }
+        if show_recs(&r) == want {
+            rep.count(&format!("witness.{}.reproduced_on_real_code", name));
+        }
+        report_case(rep, &t, &case, &r, &model[0], "witness6");
+    }
+    std::env::set_current_dir("/verif").unwrap();
+}
+
 /// The same property through the command line (main()'s wiring of --source-dir, --prefix-dir and
 /// --path-mapping around add_results and rewrite_paths): every input names files that exist under
 /// the source directory (the `canonical` guard of C12_unique_partial), in several spellings.
@@ -842,11 +960,13 @@ pub fn run(rep: &mut Report) {
     witness(rep);
     witness_prefix(rep);
     witness_links(rep);
+    witness_review6(rep);
     corpus(rep);
+    java::run(rep);
     stream(rep, &mut rng);
     std::env::set_current_dir("/verif").unwrap();
     cli_stream(rep, &mut rng);
-    rep.notes.push("observation (counted as out.distinct_files_one_path, not judged by C12): with a source dir whose last component is T, a relative key T/../x is resolved by guess_abs_path to <parent of source dir>/x, outside the source dir, and is reported with the relative path x; if x is also reported for <source dir>/x, two different files share one path".into());
+    rep.notes.push("matchers (second review, item 6): per file — all inputs whose key canonicalises (canonicalize(source_dir.join(key))) to ONE path must sit in ONE record, whatever the other keys, the mapping or the prefix: an unnamed failure otherwise; a path listed twice for ONE file (canonical absolute paths equal) is C12-respelled-duplicates (spellings add_results does not unify: counted as dup.one_file.*); a path listed for two DIFFERENT files fails unless it is C12-outside-source-dir-keeps-own-name (a relative reported path whose file is not below the source dir)".into());
     rep.notes.push("the main stream is in-process (add_results, rewrite_paths, output_covdir); a second, small stream drives the CLI with files existing under --source-dir and --path-mapping / --prefix-dir options. every second tree has symbolic links (directory and file links, chains, relative and absolute targets, into and out of the source dir, dangling, loops) and files are also named through them; Java/Kotlin keys and markers are outside the generated domain; keys that denote a directory are not written with output_covdir (it panics on an empty path: not this property)".into());
 }
 
@@ -867,6 +987,9 @@ fn corpus(rep: &mut Report) {
 }
 
 pub fn replay(rep: &mut Report, case: &Value) {
+    if case["op"].as_str().map_or(false, |o| o.starts_with("c12.")) {
+        return java::replay(rep, case);
+    }
     if case["op"].as_str() == Some("addrewrite") {
         let base = rep.workdir.join("fs");
         let t = tree_from_json(&base, &case["tree"]);
